@@ -7,6 +7,7 @@ canonical history of each object's abstract state run alone in a pristine proces
 catalogue (scripts with sub-molecule and fractional totals) and the fixed-step completion count.
 """
 import itertools
+import json
 import math
 
 from mc import core, pool, models, eng, lifecycle as lc, tlaconf
@@ -103,6 +104,12 @@ def step_cases():
                         for sp_ in sc["system"]["species"]:
                             sp_["D"] = sp_["D"] / scale
                         yield {"sub": "steps", "engine": engine, "script": sc, "dt": dt * scale, "t_max": tmax * scale}
+                        if scale == 1.0:
+                            # the same step and end time written with their own units (other than the script's second)
+                            sc2 = json.loads(json.dumps(sc))
+                            sc2["time_step"] = "%r ms" % (dt * 1000.0)
+                            sc2["t_max"] = "%r ms" % (tmax * 1000.0)
+                            yield {"sub": "steps", "engine": engine, "script": sc2, "dt": dt, "t_max": tmax}
 
 
 def check_factory(case):
@@ -318,7 +325,7 @@ def build_jobs(tier, seed0, d1=None, d2=None, two=True, dlm=None, light=False):
     subs.append(("engine factories of engine_collection: two calls give two objects with their own status (4 factories)", len(fcs), len(fcs)))
     stc = list(step_cases())
     jobs += [("simple", c) for c in stc]
-    subs.append(("fixed-step completion count: 3 dt x 8 t_max x 4 time scales (1, 2^-40, 1e-10, 1e6) x 2 engines x {grid,graph}", len(stc), len(stc)))
+    subs.append(("fixed-step completion count: 3 dt x 8 t_max x 4 time scales (1, 2^-40, 1e-10, 1e6; scale 1 also with step and end time written in ms) x 2 engines x {grid,graph}", len(stc), len(stc)))
     return jobs, subs
 
 
